@@ -289,7 +289,13 @@ func main() {
 			if k == rounds-1 || r.Intn(4) == 0 {
 				do("closein")
 			}
-			for !s.done {
+			// (a discipline that forwards nothing would keep this loop going for ever)
+			for budget := 4 + 2*len(s.in); !s.done; budget-- {
+				if budget == 0 {
+					s.fail("C12 %d pass() calls in a row did not forward what the input holds (%d elements, Quantity %d)", 4+2*len(s.in), len(s.in), q)
+					s.done = true
+					break
+				}
 				rep := do("pass")
 				if rep == "blocked" || rep == "hang" {
 					break
